@@ -463,13 +463,14 @@ def fold_genexp(ip, fname, node, fr):
                 return C(False)
         return acc if fname == "sum" else C(fname == "all")
     xs = ip.iter_seq(it)
-    ckey = (fname,) + env_key(node, fr.env)
+    elem_cls = getattr(it, "elem_cls", None)
+    ckey = (fname, elem_cls) + env_key(node, fr.env)
     e = _BODY_CACHE[ckey][0] if ckey in _BODY_CACHE else V.fresh("elt")
 
     def body(sub):
         env = dict(fr.env)
         f2 = Frame(fr.func, env, fr.fn_globals, fr.cls_ctx, fr.name)
-        sub.assign_target(g.target, Z(e), f2)
+        sub.assign_target(g.target, Z(e, elem_cls) if elem_cls is not None else Z(e), f2)
         for c in g.ifs:
             if not sub.truth(sub.eval(c, f2)):
                 return None
